@@ -29,6 +29,9 @@ type c02Script struct {
 	FinalEOF  bool   `json:"final_eof,omitempty"`
 	ViaGlobal bool   `json:"via_global,omitempty"`
 	Note      string `json:"note,omitempty"`
+	// Before: keys (hex) the same process signed with immediately before the call under
+	// test - a signer that serves several keys. Their signatures are not judged here.
+	Before []string `json:"before,omitempty"`
 }
 
 type c02 struct{}
@@ -47,12 +50,12 @@ func (c02) Plan(tier string) core.Plan {
 func (c02) Meta() core.Meta {
 	return core.Meta{
 		Level: "exploration",
-		Rule: "systematic: the key-range table (0 in several encodings, 1, n-2, n-1, n, 2^256-1) and each single rejection rule first in the stream; thorough tier only: two streams that begin with 2^24 unusable candidates (all 0xff, all zero); seeded: (d, e, nonce stream) with streams crafted so the first candidates hit the rejection rules (k>=n, k=0, solved r=0, r+k=n, s=0) in random order and multiplicity, digests solved so r or s has 1-3 leading zero bytes, short reads/stalls mixed in at low rate. " +
+		Rule: "one run in four signs with one or two other keys first (unrelated, sharing a prefix, a suffix or all but one bit with the key under test, or colliding with it under a 32-bit checksum); systematic: the key-range table (0 in several encodings, 1, n-2, n-1, n, 2^256-1) and each single rejection rule first in the stream; thorough tier only: two streams that begin with 2^24 unusable candidates (all 0xff, all zero); seeded: (d, e, nonce stream) with streams crafted so the first candidates hit the rejection rules (k>=n, k=0, solved r=0, r+k=n, s=0) in random order and multiplicity, digests solved so r or s has 1-3 leading zero bytes, short reads/stalls mixed in at low rate. " +
 			"non-trivial = at least one candidate rejected, a refused key, a short r/s, or a delivery fault fired; distinct = distinct (key class, rejection-reason sequence, r/s length classes, delivery faults fired, outcome)",
 		Components: map[string]string{"sm2.SignHashed": "real", "randomness source": "stub (simulated device)", "oracle": "sm2ref.Sign (GM/T 0003.2 over math/big affine arithmetic; anchored on the GM/T 0003.5 example, cross-checked with crypto/elliptic generic code)"},
 		Assumptions: []string{"sm2ref is correct (anchors in ref.SelfTest)", "private keys longer than 32 bytes are outside the statement (both refuse)",
 			"a key whose value is outside [1,n-2] must be refused whatever its encoded length (the statement speaks of the key's value)"},
-		FaultKinds: []string{"short", "stall", "final-read-carries-EOF", "cand:k>=n", "cand:k=0", "cand:r=0", "cand:r+k=n", "cand:s=0", "key:refused"},
+		FaultKinds: []string{"short", "stall", "final-read-carries-EOF", "cand:k>=n", "cand:k=0", "cand:r=0", "cand:r+k=n", "cand:s=0", "key:refused", "history:other-key-signed-before"},
 		ProbeNames: []string{"rej:k>=n", "rej:k=0", "rej:r=0", "rej:r+k=n", "rej:s=0", "retries>=2", "short-r", "short-s", "key-refused", "key-short-encoding"},
 		StepUnit:   "reader calls + sign calls",
 	}
@@ -174,6 +177,32 @@ func (c02) Generate(idx int, r *core.Rand, tier string) core.Script {
 	s.Priv = hx(priv)
 	d := ref.Int(priv)
 	e := w.Bytes(32)
+	if hs := r.Split("history"); len(priv) == 32 && ref.KeyValid(d) && hs.Chance(1, 4) {
+		// the process signed with other keys just before: unrelated ones, keys that share a
+		// prefix, a suffix or all but one bit with this one, and (rarely: a birthday search)
+		// a key with the same 32-bit checksum
+		for i := hs.Range(1, 2); i > 0; i-- {
+			o := genPriv(hs)
+			switch hs.Intn(8) {
+			case 0:
+				copy(o[:16], priv[:16])
+			case 1:
+				copy(o[16:], priv[16:])
+			case 2:
+				o = append([]byte{}, priv...)
+				o[hs.Intn(32)] ^= 1 << uint(hs.Intn(8))
+			case 3:
+				if hs.Chance(1, 3) {
+					a, b, _ := fingerprintTwin(hs)
+					o, priv = a, b
+					s.Priv, d = hx(priv), ref.Int(priv)
+				}
+			}
+			if ref.KeyValid(ref.Int(o)) && len(o) == 32 {
+				s.Before = append(s.Before, hx(o))
+			}
+		}
+	}
 	// stream: rejected prefix in random order and multiplicity
 	nrej := 0
 	for nrej < 6 && w.Chance(1, 2) {
@@ -339,6 +368,11 @@ func (c02) Execute(sc core.Script, keep bool) *core.Result {
 	}()
 	sm2Canon()
 	priv, e := unhx(s.Priv), unhx(s.E)
+	for i, bk := range s.Before {
+		call := sm2Call{Op: "SignHashed", Priv: bk, E: s.E}
+		core.Catch(func() { call.run(rng.New(rng.Content{TailSeed: uint64(i) + 77}, nil, nil)) })
+		res.Faults["history:other-key-signed-before"]++
+	}
 	viol := func(class, role, param, detail string) {
 		res.Violation = &core.Violation{Class: class, Op: "SignHashed", Role: role, Param: param, Detail: detail}
 		log.Add("VIOLATION %s %s %s: %s", class, role, param, detail)
